@@ -246,6 +246,53 @@ fn strings(r: &mut Report, cfg: &Cfg) {
     laws(r, "cmp_slice_str", &sl, &|a, b| konst::slice::cmp::cmp_slice_str(a, b), &|a, b| konst::slice::cmp::eq_slice_str(a, b));
 }
 
+/// long operands that differ late (or only in length): block-wise comparison refactors
+fn long_operands(r: &mut Report, cfg: &Cfg) {
+    let lens: &[usize] = if cfg.miri() { &[9, 33] } else { &[7, 8, 9, 15, 16, 17, 31, 32, 33, 63, 64, 65, 70, 255, 256, 257] };
+    let mut rng = Rng::new(cfg.seed ^ 0xC16);
+    for &len in lens {
+        let a8: Vec<u8> = (0..len).map(|_| b'a' + (rng.below(3) as u8)).collect();
+        let a64: Vec<u64> = a8.iter().map(|&x| (x as u64) << 40).collect();
+        let mut variants: Vec<Vec<u8>> = vec![a8.clone()];
+        for p in [0usize, 1, 6, 7, 8, 14, 15, 16, 30, 31, 32, 62, 63, 64, len / 2, len.saturating_sub(2), len - 1] {
+            if p < len {
+                for delta in [1i16, -1] {
+                    let mut b = a8.clone();
+                    b[p] = (b[p] as i16 + delta) as u8;
+                    variants.push(b);
+                }
+            }
+        }
+        let mut t = a8.clone();
+        t.pop();
+        variants.push(t);
+        let mut e = a8.clone();
+        e.push(b'a');
+        variants.push(e);
+        for x in &variants {
+            for y in &variants {
+                let (x, y): (&[u8], &[u8]) = (x, y);
+                let inp = || format!("T=[u8] long len={} a={:?} b={:?}", len, String::from_utf8_lossy(x), String::from_utf8_lossy(y));
+                ck_eq(r, "eq_bytes(long)", inp, konst::slice::eq_bytes(x, y), x == y);
+                ck_ord(r, "cmp_bytes(long)", inp, konst::slice::cmp_bytes(x, y), x.cmp(y));
+                ck_eq(r, "const_eq!(long slice)", inp, const_eq!(x, y), x == y);
+                ck_ord(r, "const_cmp!(long slice)", inp, const_cmp!(x, y), x.cmp(y));
+                let (sx, sy) = (core::str::from_utf8(x).unwrap(), core::str::from_utf8(y).unwrap());
+                ck_eq(r, "eq_str(long)", inp, konst::eq_str(sx, sy), sx == sy);
+                ck_ord(r, "cmp_str(long)", inp, konst::cmp_str(sx, sy), sx.cmp(sy));
+                let x64: Vec<u64> = x.iter().map(|&v| (v as u64) << 40).collect();
+                let y64: Vec<u64> = y.iter().map(|&v| (v as u64) << 40).collect();
+                ck_eq(r, "eq_slice_u64(long)", inp, konst::slice::cmp::eq_slice_u64(&x64, &y64), x64 == y64);
+                ck_ord(r, "cmp_slice_u64(long)", inp, konst::slice::cmp::cmp_slice_u64(&x64, &y64), x64.cmp(&y64));
+                if x != y {
+                    r.nt(&("long", len, x, y));
+                }
+            }
+        }
+        let _ = a64;
+    }
+}
+
 fn others(r: &mut Report) {
     use konst::other::cmp::*;
     let os = [Ordering::Less, Ordering::Equal, Ordering::Greater];
@@ -342,6 +389,7 @@ pub fn run(cfg: &Cfg) -> (&'static str, Report, String, String) {
         }
         17 => others(r),
         18 => asserts(r),
+        19 => long_operands(r, cfg),
         _ => {}
     });
     (
